@@ -14,7 +14,7 @@ RULE = ('case = one remove_formatting(settings|None, start, end) / clear_formatt
 ASSUMPTIONS = ['precedence-equivalence (DESIGN 2.2)',
                'the given settings are read as the texts AnsiString(\'x\').apply_formatting(settings) reports']
 MIN_EVAL = 400
-CASES = {'quick': 70, 'thorough': 1600}
+CASES = {'quick': 700, 'thorough': 9600}
 WEIGHTS = {'apply': 14, 'remove': 12, 'clear_formatting': 1, 'getitem': 3, 'add': 3, 'pad': 2, 'query': 0.1,
            'find_settings': 0.1, 'settings_at': 0.1, 'unformat_matching': 2}
 
